@@ -87,6 +87,16 @@ Theorem C10_linspace_iter : forall k a b n i, i < n ->
 Proof. exact linspace_iter. Qed.
 Print Assumptions C10_linspace_iter.
 
+(* every assignment a (well-formed) sweep enumerates assigns exactly sweep.keys, in that order *)
+Theorem C10_sweep_keys_iter : forall s, wf s = true -> uniform s = true -> keyed (keys s) (iter s).
+Proof. exact sweep_keys_iter. Qed.
+Print Assumptions C10_sweep_keys_iter.
+
+Example C10_sweep_keys_example :
+  let s := Product [Linspace "a"%string 0 1 3; Zip [Points "b"%string [1; 2]%Q; Points "c"%string [3; 4; 5]%Q]] in
+  wf s = true /\ uniform s = true /\ keys s = ["a"; "b"; "c"]%string /\ len s = 6.
+Proof. repeat split. Qed.
+
 (* ================= resolver (D1): value_of = substitution iterated to a fixed point ========================== *)
 (* an answer of value_of (fast paths, slow path, recursion sentinel) is the fixed point of simultaneous substitution;
    hence, for every interpretation of the arithmetic, its value is the value of the substituted expression *)
